@@ -735,6 +735,23 @@ func (bs *BinarySet) Add(obj Object) Object {
 // NumberSet is the representation of a number set
 type NumberSet struct {
 	Value map[float64]bool
+	// texts holds the numeral each member was read from (see Number.text): a member that is only stored or
+	// copied keeps all its digits
+	texts map[float64]string
+}
+
+func (ns *NumberSet) setText(v float64, text string) {
+	if text == "" {
+		return
+	}
+
+	if ns.texts == nil {
+		ns.texts = map[float64]string{}
+	}
+
+	if _, ok := ns.texts[v]; !ok {
+		ns.texts[v] = text
+	}
 }
 
 // Inspect returns the readable value of the object
@@ -770,6 +787,9 @@ func (ns *NumberSet) ToDynamoDB() types.Item {
 
 	for v := range ns.Value {
 		str := numToString(v)
+		if text, ok := ns.texts[v]; ok {
+			str = text
+		}
 
 		attr.NS = append(attr.NS, types.ToString(str))
 	}
@@ -814,6 +834,10 @@ func (ns *NumberSet) Add(obj Object) Object {
 		nsInput, ok := obj.(*NumberSet)
 		if ok {
 			for n := range nsInput.Value {
+				if !ns.Value[n] {
+					ns.setText(n, nsInput.texts[n])
+				}
+
 				ns.Value[n] = true
 			}
 
@@ -822,6 +846,10 @@ func (ns *NumberSet) Add(obj Object) Object {
 	case ObjectTypeNumber:
 		n, ok := obj.(*Number)
 		if ok {
+			if !ns.Value[n.Value] {
+				ns.setText(n.Value, n.text)
+			}
+
 			ns.Value[n.Value] = true
 
 			return UNDEFINED
@@ -839,6 +867,7 @@ func (ns *NumberSet) Delete(obj Object) Object {
 		if ok {
 			for n := range nsInput.Value {
 				delete(ns.Value, n)
+				delete(ns.texts, n)
 			}
 
 			return UNDEFINED
@@ -847,6 +876,7 @@ func (ns *NumberSet) Delete(obj Object) Object {
 		n, ok := obj.(*Number)
 		if ok {
 			delete(ns.Value, n.Value)
+			delete(ns.texts, n.Value)
 
 			return UNDEFINED
 		}
